@@ -193,6 +193,8 @@ def check_config(ctx, F, tag):
         ctx.ob("C06.R2.size-terms-all-added", name + tag, loc(sb.raw["span"]), not unused, "dataflow", "size terms not flowing into an addition: %s" % unused, nontrivial=False)
         fixed_counts[im["self_def"]] = W
 
+    import c09
+    c09.check_wm_load_width(ctx, F, tag, rule="C06.R1.loader-accepts-constructible-width")
     check_basic(ctx, F, {im["self"]: im for im in impls}, tag)
     check_defaults(ctx, F, tag)
     check_size_by_params(ctx, F, fixed_counts, tag)
